@@ -22,10 +22,14 @@ import (
 	"errors"
 	"fmt"
 	"strings"
+	"sync"
 	"testing"
 	"time"
 
 	lifecycle "github.com/boz/go-lifecycle"
+	"github.com/boz/kcache"
+	"github.com/boz/kcache/filter"
+	metav1 "k8s.io/apimachinery/pkg/apis/meta/v1"
 	"pgregory.net/rapid"
 )
 
@@ -243,5 +247,118 @@ func TestC14_WatchFaults(t *testing.T) {
 		statCase("C14", hashString("watch "+strings.Join(w.hist, ";")), len(kinds) >= 3, func() interface{} {
 			return map[string]interface{}{"mode": "watch-fault", "faults": nfault, "shutdown": how, "history": append([]string(nil), w.hist...)}
 		}, append(labels, "shutdown_"+how)...)
+	})
+}
+
+// TestC14_StalledController: a list fails while the controller is busy (its
+// controller-level filter blocks on a harness channel while applying a watch
+// event) for several refresh periods.  The failure must still reach the
+// controller: once it is released it must stop with the cause, whatever the
+// lister did in the meantime.
+func TestC14_StalledController(t *testing.T) {
+	rapid.Check(t, func(t *rapid.T) {
+		P := time.Duration(rapid.IntRange(1500, 6000).Draw(t, "periodUs")) * time.Microsecond
+		stallPeriods := rapid.IntRange(2, 8).Draw(t, "stallPeriods")
+		fault := rapid.SampledFrom(allListFaults).Draw(t, "fault")
+		okBefore := rapid.IntRange(1, 4).Draw(t, "listsBefore")
+		a := newFakeAPI()
+		a.put("a", "p", nil)
+		gate := make(chan struct{})
+		entered := make(chan struct{}, 1)
+		var once sync.Once
+		blocker := filter.FN(func(o metav1.Object) bool {
+			if o.GetName() == "trigger" {
+				once.Do(func() {
+					entered <- struct{}{}
+					<-gate
+				})
+			}
+			return true
+		})
+		ctx, cancel := context.WithCancel(context.Background())
+		defer cancel()
+		b := kcache.NewBuilder().Context(ctx).Log(newPlog(false, 1)).Client(a).Filter(blocker)
+		b.Lister().RefreshPeriod(P)
+		root, err := b.Create()
+		if err != nil {
+			t.Fatalf("create: %v", err)
+		}
+		released := false
+		defer func() {
+			if !released {
+				close(gate)
+			}
+			cancel()
+			go root.Close()
+		}()
+		fail := func(format string, args ...interface{}) {
+			a.mu.Lock()
+			var calls []string
+			for _, c := range a.listCalls {
+				calls = append(calls, fmt.Sprintf("#%d%s", c.k, map[bool]string{true: "(" + string(c.fault) + ")", false: ""}[c.fault != lfNone]))
+			}
+			a.mu.Unlock()
+			t.Fatalf("C14 violation: %s [period %v, controller stalled for %d periods, fault %s; List calls: %v]", fmt.Sprintf(format, args...), P, stallPeriods, fault, calls)
+		}
+		if !waitWedge(root.Ready()) {
+			fail("WEDGE: the controller never became ready")
+		}
+		// let a few ordinary relists happen
+		deadline := time.Now().Add(wedgeBoundNow())
+		for a.listCount() < okBefore {
+			if time.Now().After(deadline) {
+				fail("WEDGE: relisting stopped")
+			}
+			time.Sleep(P / 4)
+		}
+		// stall the controller inside the filter
+		a.put("a", "trigger", nil)
+		select {
+		case <-entered:
+		case <-time.After(wedgeBoundNow()):
+			fail("WEDGE: the watch event never reached the controller")
+		}
+		// the next list fails; it returns while the controller is busy
+		a.mu.Lock()
+		k := a.nlists + 1
+		if a.inflight > 0 {
+			k = a.nlists + 1 // the one in flight returns normally; the following call fails
+		}
+		a.listFaults[k] = fault
+		a.mu.Unlock()
+		// (if the previous list's result is still waiting to be consumed the lister rightly does not
+		// list again until the controller is released: then the failing list simply comes afterwards)
+		whileStalled := false
+		deadline = time.Now().Add(10*P + 100*time.Millisecond)
+		for time.Now().Before(deadline) {
+			a.mu.Lock()
+			done := len(a.listCalls) >= k && a.listCalls[k-1].returned
+			a.mu.Unlock()
+			if done {
+				whileStalled = true
+				break
+			}
+			time.Sleep(P / 4)
+		}
+		// keep the controller busy for several periods, then release it
+		time.Sleep(time.Duration(stallPeriods) * P)
+		extra := a.listCount() - k
+		close(gate)
+		released = true
+		if !waitWedge(root.Done()) {
+			fail("list #%d failed (%s) while the controller was busy; after it was released it kept running (Error() = %v, %d further List calls were made before the failure was consumed): the failure was lost", k, fault, root.Error(), extra)
+		}
+		if err := root.Error(); err == nil || errors.Is(err, lifecycle.ErrRunning) {
+			fail("list #%d failed but Error() reports %v", k, err)
+		} else if fault == lfError && !errors.Is(err, errInjected) {
+			fail("Error() = %v does not carry the injected cause", err)
+		}
+		cancel()
+		if n, dump := waitNoLibGoroutines(wedgeBoundNow()); n != 0 {
+			fail("%d library goroutines left:\n%s", n, dump)
+		}
+		statCase("C14", hashString(fmt.Sprintf("stalled %v %d %s %d", P, stallPeriods, fault, okBefore)), true, func() interface{} {
+			return map[string]interface{}{"mode": "list fault while the controller is stalled", "period": P.String(), "stalled_periods": stallPeriods, "fault": string(fault), "failing_list": k}
+		}, "stalled_controller", "listfault_"+string(fault), fmt.Sprintf("failed_list_returned_while_stalled=%v", whileStalled))
 	})
 }
